@@ -19,7 +19,7 @@ package engine
 //@ ensures [out-of-ammo] imp(result == outOfAmmoErr, ev(acquire_ok) == old(ev(acquire_ok)))
 //@ panics ensures [release-per-acquire] ev(release) - old(ev(release)) == ev(acquire_ok) - old(ev(acquire_ok))
 //@ modifies ev(acquire_ok), ev(release), ev(token), ev(shoot), ev(report), counterVal[i.metrics.Request], counterVal[i.metrics.Response]
-//@ modifies waiter.overdueDuration, waiter.lastNow, waiter.timer, leftOf[waiter.sched], timerDeadline
+//@ modifies waiter.overdueDuration, waiter.lastNow, waiter.timer, leftOf[waiter.sched], startedOf[waiter.sched], timerDeadline
 //@ at call i.aggregator.Report assert [discarded-sample] arg(s) == box(result_of(netsample.DiscardedShootSample, 0))
 //@ at call i.gun.Shoot assert [ammo-still-held] ev(release) == old(ev(release)) && ev(acquire_ok) == old(ev(acquire_ok)) + 1
 //@ at call i.gun.Shoot assert [not-late-when-discarding] imp(i.discardOverflow && !done(ctx), waiter.overdueDuration < 2000000000)
@@ -45,7 +45,7 @@ package engine
 //@ ensures [response-metric-or-failure] counterVal[i.metrics.Response] - old(counterVal[i.metrics.Response]) == ev(shoot) - old(ev(shoot)) || recoverErr != nil
 //@ ensures [finish-counted-once] counterVal[i.metrics.InstanceFinish] == old(counterVal[i.metrics.InstanceFinish]) + 1
 //@ modifies ev(acquire_ok), ev(release), ev(token), ev(shoot), ev(report), counterVal[i.metrics.Request], counterVal[i.metrics.Response]
-//@ modifies counterVal[i.metrics.InstanceStart], counterVal[i.metrics.InstanceFinish], leftOf[i.schedule], timerDeadline
+//@ modifies counterVal[i.metrics.InstanceStart], counterVal[i.metrics.InstanceFinish], leftOf[i.schedule], startedOf[i.schedule], timerDeadline
 
 // ---------------------------------------------------------------- instance creation / start-up (C11, C12)
 
